@@ -113,6 +113,18 @@ def statesAlong (perm : Nat → List Nat) : List VOp → View → List (View × 
     let v' := (View.step perm op v).2
     (v, v') :: statesAlong perm ops v'
 
+/-- a `vopOf` operation | {"seed": s} (`loader.batch_sampler.sampler.base_seed = s`). -/
+def sopOf (j : Json) : Except String SOp := do
+  match fieldOpt j "seed" with
+  | some s => do pure (.setSeed (← jsonToNat s))
+  | none => do pure (.v (← vopOf j))
+
+def statesAlongS (src : Nat → Nat → List Nat) : List SOp → Seeded → List (Seeded × Seeded)
+  | [], _ => []
+  | op :: ops, z =>
+    let z' := (Seeded.step src op z).2
+    (z, z') :: statesAlongS src ops z'
+
 /-- case: {lens, nb, B, dynamic, drop, cls: "spect" | "lang" | "cw", present: {batch_first, sort_batch,
 suppress_alis, suppress_uttids, tokens_only} (the flags the constructor stores), mode, dist: null |
 [rank, world], init_epoch, perms: [[epoch, [..ordering..]]..] (the whole-data-set ordering of every
@@ -124,7 +136,9 @@ size), {"err": ..} (bucket parameters fail) or {"serves": [{epoch, order, batche
 len_after, present, drop}..] (one per "serve"), "events": [{op, epoch (before), epoch_after, order
 (this rank's samples of the epoch before), present (the flags a collate call of this operation reads
 / the flags after an assignment), drop (the batch sampler's flag after the operation), ..}] (one per
-operation: "next" carries batch / row / stop / err, "len" carries len, "peek" carries samples),
+operation: "next" carries batch / row / stop / err, "len" carries len, "peek" carries samples; with
+{"seed": s} operations (`sampler.base_seed = s`; case fields seed = the constructor's base_seed, reseed =
+[[s, perms of s]..]) the script runs through `Seeded.exec` and every event carries the seed in force after it),
 "final_epoch", "params"}; `rows` / `row` = the utterance ids the collate function of the class
 (`spectDeliver` / `langDeliver` / `cwCollate` on utterances of the given lengths) attaches to the
 rows of the batch, under the flags in force AT THAT CALL. -/
@@ -151,8 +165,24 @@ def c14Loader : Handler := fun c => do
     match j with
     | .arr #[e, p] => do pure ((← jsonToNat e), (← jsonToList jsonToNat p))
     | _ => throw "perms: expected [epoch, ordering]") c "perms"
-  let ops ← getList vopOf c "ops"
-  let perm : Nat → List Nat := fun e => (dget table e).getD []
+  let seed0 ← match fieldOpt c "seed" with
+    | some v => jsonToNat v
+    | none => pure 0
+  let reseeds ← match fieldOpt c "reseed" with
+    | none => pure []
+    | some v => jsonToList (fun j => do
+      match j with
+      | .arr #[s, t] => do
+        let tb ← jsonToList (fun q => do
+          match q with
+          | .arr #[e, p] => do pure ((← jsonToNat e), (← jsonToList jsonToNat p))
+          | _ => throw "reseed: expected [epoch, ordering]") t
+        pure ((← jsonToNat s), tb)
+      | _ => throw "reseed: expected [seed, perms]") v
+  let ops ← getList sopOf c "ops"
+  -- the ordering source: (base_seed, epoch) ↦ ordering (`perms` belongs to the constructor's seed)
+  let src : Nat → Nat → List Nat := fun s e =>
+    if s = seed0 then (dget table e).getD [] else (((dget reseeds s).getD []).lookup e).getD []
   let cfg : LoaderCfg := ⟨lens, nb, B, dyn, drop⟩
   let params := if nb > 1 then paramsJ (bucketParams lens nb B dyn) else Json.null
   match Loader.new cfg (samplerMode cw drop mode) dist e0 with
@@ -161,8 +191,10 @@ def c14Loader : Handler := fun c => do
     match loaderBatches lens nb B dyn drop [] with
     | .error e => pure (objJ [("err", strJ (errStr e))])
     | .ok _ =>
-      let (trace, vfin) := View.exec perm ops (View.new l flags)
-      let states := statesAlong perm ops (View.new l flags)
+      let z0 : Seeded := ⟨View.new l flags, seed0⟩
+      let (trace, zfin) := Seeded.exec src ops z0
+      let vfin := zfin.view
+      let states := statesAlongS src ops z0
       -- the collate function of the class on utterances of the given lengths, ids = data-set indices
       let spectData : Nat → SpectItem Unit Unit Unit Nat :=
         fun i => ⟨List.replicate (lens.getD i 0) (), none, none, i⟩
@@ -171,13 +203,19 @@ def c14Loader : Handler := fun c => do
         if cw then (cwCollate (b.map (fun i => (List.replicate (lens.getD i 0) (), (none : Option (List Unit)), i)))).2.2.2
         else if cls == "lang" then (langDeliver () id langData p b).1.2.2
         else (spectDeliver () () () id spectData p b).batch.uttids
-      let evs := (trace.zip states).map (fun ((op, out, p), (v, v')) =>
-        let s := v.session
-        let s' := v'.session
+      let evs := (trace.zip states).map (fun ((sop, shown), (z, z')) =>
+        let s := z.view.session
+        let s' := z'.view.session
         let e := s.loader.epoch
+        let perm := src z.seed
         let order := PdtVerif.EpochSampler.samples l.sampler.cfg (perm e)
+        let p := match shown with | some (_, q) => q | none => z.view.present
         let base := [("epoch", natJ e), ("epoch_after", natJ s'.loader.epoch), ("order", listJ natJ order),
-          ("present", presentJ p), ("drop", boolJ s'.loader.cfg.drop)]
+          ("present", presentJ p), ("drop", boolJ s'.loader.cfg.drop), ("seed", natJ z'.seed)]
+        match sop, shown with
+        | .setSeed _, _ => ("seed", objJ (base ++ [("op", strJ "seed")]))
+        | .v _, none => ("?", objJ (base ++ [("op", strJ "?")]))
+        | .v op, some (out, _) =>
         match op, out with
         | .io .serve, .pass (.error er) => ("serve", objJ (base ++ [("op", strJ "serve"), ("err", strJ (errStr er))]))
         | .io .serve, .pass (.ok (bs, er)) =>
